@@ -137,7 +137,7 @@ fn acc_generic<const K: usize>(mode: u8) {
             _ => M_ASCII,
         };
         assert!(r.mode == want);
-        kani::cover!(K < 2 || ro.n >= 2);
+        kani::cover!(K < 3 || ro.n >= 1);
         kani::cover!(stop == Stop::End || mode == M_B256 || K == 0);
     }
 }
